@@ -17,3 +17,18 @@ define("disjoint_levels(S, U, t)", "forall(l1, 0, t, forall(l2, l1 + 1, t + 1, S
 define("fullmask(p)", "forall(k, var_bounds[p, RG_START], var_bounds[p, RG_END], has(triggers[props_dom_indices[k], p], EVENT_MASK_MIN) and has(triggers[props_dom_indices[k], p], EVENT_MASK_MAX))")
 define("onpoint(S, l, p)", "forall(k, var_bounds[p, RG_START], var_bounds[p, RG_END], S[l, props_dom_indices[k], MIN] == sigma[props_dom_indices[k]] and S[l, props_dom_indices[k], MAX] == sigma[props_dom_indices[k]])")
 define("absent(S, t)", "forall(l, 0, t + 1, trig(l) == l and not in_box(S, l))")
+
+# ------------------------------------------------------------------ fixpoint layer (C08): Fix(p, l, S) "re-executing constraint p on row l of S changes nothing and does not fail"
+define("fixp(S, l, p)", "ufun_bool('Fix', p, l, S)")
+define("moved(S1, l1, S2, l2, d)", "S2[l2, d, MIN] != S1[l1, d, MIN] or S2[l2, d, MAX] != S1[l1, d, MAX]")
+axiom("axiom_fix_frame(S1, l1, S2, l2, d, e)",
+      "implies(forall(dd, 0, D, implies(dd != d, S2[l2, dd, MIN] == S1[l1, dd, MIN] and S2[l2, dd, MAX] == S1[l1, dd, MAX])) "
+      "and S1[l1, d, MIN] <= S2[l2, d, MIN] and S2[l2, d, MAX] <= S1[l1, d, MAX] and 0 <= e and e < 8 "
+      "and implies(S2[l2, d, MIN] != S1[l1, d, MIN], has(e, EVENT_MASK_MIN)) and implies(S2[l2, d, MAX] != S1[l1, d, MAX], has(e, EVENT_MASK_MAX)) "
+      "and implies(moved(S1, l1, S2, l2, d) and S2[l2, d, MIN] == S2[l2, d, MAX], has(e, EVENT_MASK_GROUND)), "
+      "forall(p, 0, P, implies(fixp(S1, l1, p) and not has(triggers[d, p], e), fixp(S2, l2, p))))",
+      "A-FIX-ADEQ (C08, wake-up masks are sufficient): if row l2 of S2 is row l1 of S1 with the single domain d shrunk, and e contains MIN/MAX for each moved bound and GROUND if d "
+      "became a point, then every constraint that is at a fixpoint on (S1,l1) and does not watch (d,e) is at a fixpoint on (S2,l2). Per-propagator justification: get_triggers contracts + bounded trigger suite; not derived deductively.")
+axiom("axiom_fix_ran(ok, S, l, p)", "implies(ok, fixp(S, l, p))",
+      "A-FIX-RAN (C08): at the end of an iteration of the propagation loop, if constraint p was executed without failure, the store row now equals the box it returned at every position of p, and either "
+      "nothing changed (determinism: the same input gives the same output) or p is not the linear equality (idempotence, C14: a second consecutive call changes nothing; proved for 4 propagators, bounded for the others), then p is at a fixpoint on that row.")
